@@ -40,6 +40,15 @@ def std_policy(array_mode=False, extra=None):
                     if truth is None:
                         return None
                     return truth if t.op == "==" else not truth
+        if t.kind == "cmp" and t.op in ("<", "<=", ">", ">=") and nf.is_const(t.b):
+            # x.size > 0, len(x) >= 1, np.size(x) < 1 ...: inputs are non-empty (size >= 1)
+            at = it.single_atom(t.a)
+            if at is not None and at[0] == "fn" and at[1] in ("size", ".size", "len") and len(at[2]) == 1:
+                c = nf.cval(t.b)
+                if (t.op, c) in ((">", 0), (">=", 1)):
+                    return True
+                if (t.op, c) in (("<", 1), ("<=", 0)):
+                    return False
         return None
 
     return policy
@@ -81,7 +90,8 @@ def only(paths, what, ctx=None, rule=None):
         raise AnalysisError(f"{what}: expected one result, found {len(vals)} different ones over {len(r)} returning trace partitions")
 
     def size(p):
-        return sum(1 for _ in nf.atoms(p.value.nf)) if isinstance(p.value, Num) else -1
+        # a structured result of an external call (a quadrature, a root) is the general formula rather than a constant
+        return sum(1 for _ in nf.atoms(p.value.nf)) if isinstance(p.value, Num) else 10**6
 
     main = max(vals.values(), key=size)
     main_keys = {(k, c) for k, c, _d in main.decisions}
@@ -90,14 +100,14 @@ def only(paths, what, ctx=None, rule=None):
             continue
         extra = [(k, c, d) for k, c, d in p.decisions if (k, c) not in main_keys]
         tagtxt = ", ".join(("" if c else "not ") + d[:70] for _k, c, d in extra) or "other partition"
-        if isinstance(p.value, Num) and isinstance(main.value, Num) and extra:
+        if isinstance(p.value, Num) and extra:
             # special point: every selecting test is an equality x == c (c free of x) under which both agree
             sub = {}
             special = True
             for k, c, _d in extra:
                 if k[0] == "eq" and c:
                     d = nf.unkey(k[1])
-                    syms = [s_ for s_ in nf.symbols(d) if nf.is_const(nf.sub(nf.diff(d, s_), nf.ONE)) or nf.is_const(nf.add(nf.diff(d, s_), nf.ONE))] if hasattr(nf, "diff") else []
+                    syms = [s_ for s_ in nf.symbols(d) if nf.is_const(nf.sub(nf.diff(d, s_), nf.ONE)) or nf.is_const(nf.add(nf.diff(d, s_), nf.ONE))]
                     if syms:
                         s_ = sorted(syms)[0]
                         coef = nf.diff(d, s_)
@@ -108,8 +118,16 @@ def only(paths, what, ctx=None, rule=None):
                 break
             if special and sub:
                 try:
-                    if nf.is_zero(nf.sub(nf.subst_sym(main.value.nf, sub), nf.subst_sym(p.value.nf, sub))):
+                    if isinstance(main.value, Num) and nf.is_zero(nf.sub(nf.subst_sym(main.value.nf, sub), nf.subst_sym(p.value.nf, sub))):
                         continue
+                    # a definite integral over an empty interval: quad(f, a, b)[0] with a == b at the special point is 0
+                    from ..values import ExtObj as _ExtObj
+
+                    mv = main.value
+                    qo = mv.args.get("of") if isinstance(mv, _ExtObj) and mv.qual.endswith("quad[0]") else None
+                    if isinstance(qo, _ExtObj) and isinstance(qo.args.get("a"), Num) and isinstance(qo.args.get("b"), Num):
+                        if nf.is_zero(nf.sub(nf.subst_sym(qo.args["a"].nf, sub), nf.subst_sym(qo.args["b"].nf, sub))) and not p.value.nf:
+                            continue
                 except Exception:  # noqa: BLE001 - substitution may divide by zero at the special point
                     pass
             # outside the positive domain
@@ -446,7 +464,7 @@ def check_errstate(ctx, rule, module_names):
     return n
 
 
-SHAPE_FNS = {"ndim", "size", "shape", "len", "isscalar"}
+SHAPE_FNS = {"ndim", "size", "shape", "len", "isscalar", ".ndim", ".size", ".shape", ".dtype", ".itemsize", ".flags", ".strides", ".nbytes", "type"}  # what these return does not depend on the values of an array
 
 
 def array_safe(ctx, qualname, par, opaque=()):
@@ -463,7 +481,7 @@ def array_safe(ctx, qualname, par, opaque=()):
 
     def strip_shape(p):
         def f(atom):
-            if atom[0] == "fn" and atom[1] in SHAPE_FNS:
+            if atom[0] == "fn" and atom[1].split("{")[0] in SHAPE_FNS:
                 return _nf.const(0)
             return None
 
@@ -474,7 +492,7 @@ def array_safe(ctx, qualname, par, opaque=()):
         if key[0] not in ("eq", "ge", "gt"):
             return None
         p = _nf.unkey(key[1])
-        fa = [a for a in _nf.atoms(p) if a[0] == "fn" and a[1] in SHAPE_FNS]
+        fa = [a for a in _nf.atoms(p) if a[0] == "fn" and a[1].split("{")[0] in SHAPE_FNS]
         if fa and not _nf.depends(strip_shape(p), par) and _nf.depends(p, par):
             return fa[0][1], p
         return None
@@ -501,7 +519,7 @@ def array_safe(ctx, qualname, par, opaque=()):
                 if re.fullmatch(r"isscalar\(%s\)" % re.escape(par), txt.strip()):
                     scalar = scalar or choice
                     continue
-                if re.match(r"isinstance\(%s, " % re.escape(par), txt.strip()):
+                if re.match(r"isinstance\(%s, " % re.escape(par), txt.strip()) or re.match(r"type(\{0\})?\(", txt.strip()):
                     continue  # a test of the argument's type, not of its values
                 t2 = re.sub(r"\b(?:%s)\([^()]*\)" % "|".join(SHAPE_FNS), "0", txt)
                 if re.search(r"(?<![\w.])%s(?![\w])" % re.escape(par), t2):
